@@ -5,4 +5,5 @@ if [ -n "$(git -C /repo status --porcelain)" ]; then echo "refusing: /repo has u
 cd /repo && git apply "$PATCH" || { echo "PATCH DOES NOT APPLY"; exit 3; }
 git diff --stat | tail -1
 cd /verif && ./bin/govc check -prop $P -no-evidence 2>&1 | grep -E "^FAILED|^govc:|KNOWN|^VIOLATION" | cut -c1-260 | tail -6
+[ "$P" = "C18" ] && VERIF_NO_EVIDENCE=1 tools/bounded_c18.sh quick 2>&1 | grep -E "^bounded|^VIOLATION" | cut -c1-260
 cd /repo && git checkout -- . && git status --short | head -3
